@@ -205,8 +205,13 @@ def async_run(n_agents, unconnected, cfg, data_edge=False, triggered=False, feed
                 ents = {}
                 if feeder:
                     # an ordinary persistent connection into the very attribute the agents write with set_data
-                    fe = w.start('S', sim_id='F', typ='time-based').M()
-                    w.connect(fe, a, ('op', 'im'))
+                    if feeder == 'event':
+                        # ... or an event (non-persistent output) of a hybrid simulator pushed into the same entity and attribute
+                        fe = w.start('S', sim_id='F', typ='hybrid').M()
+                        w.connect(fe, a, ('oe', 'im'))
+                    else:
+                        fe = w.start('S', sim_id='F', typ='time-based').M()
+                        w.connect(fe, a, ('op', 'im'))
                 if triggered:
                     # the agents are event-based and triggered by a separate clock simulator T
                     clock = w.start('S', sim_id='T', typ='time-based').M()
@@ -277,7 +282,7 @@ def jobs(tier):
                     cfg['concurrent'] = True
                 if tolerant:
                     cfg['tolerant'] = True
-                j = {'id': ('' if not remote else f"remote={''.join(remote)}|") + ('conc|' if concurrent else '') + ('tol|' if tolerant else '') + f"async|n={n_agents}|x={unconnected}|K={K}|until={until}|sync={''.join(sync) or '-'}|cache={int(cache)}|de={data_edge if isinstance(data_edge, str) else int(data_edge)}|rps={rps}|D={D}|ng={int(no_get)}|lazy={int(lazy)}|trig={int(triggered)}|feed={int(feeder)}",
+                j = {'id': ('' if not remote else f"remote={''.join(remote)}|") + ('conc|' if concurrent else '') + ('tol|' if tolerant else '') + f"async|n={n_agents}|x={unconnected}|K={K}|until={until}|sync={''.join(sync) or '-'}|cache={int(cache)}|de={data_edge if isinstance(data_edge, str) else int(data_edge)}|rps={rps}|D={D}|ng={int(no_get)}|lazy={int(lazy)}|trig={int(triggered)}|feed={feeder if isinstance(feeder, str) else int(feeder)}",
                      'harness': 'vk.kernels.c16:async_run',
                      'params': {'n_agents': n_agents, 'unconnected': unconnected, 'cfg': cfg, 'data_edge': data_edge, 'triggered': triggered, 'feeder': feeder},
                      'budget_s': 300}
@@ -299,6 +304,8 @@ def jobs(tier):
     add(1, None, 2, 3, [[], ['A', 'B', 'T']], caches=(True,), lazy=True, triggered=True, no_get=True, split=16)
     # a persistent source feeds the attribute the agent writes (sparse set_data calls must not be remembered)
     add(1, None, 3, 3, [['A', 'B', 'F'], ['F']], caches=(False, True), feeder=True, no_get=True)
+    # an event of a third simulator is pushed into the entity and attribute the agent writes (cache on: no persistent inputs at A)
+    add(1, None, 2, 3, [['A', 'B', 'F']], caches=(True,), feeder='event', no_get=True)
     # the async pair also carries a time-shifted data flow, A is held back by a (slow) feeder
     add(1, None, 3, 3, [['A', 'B'], ['B'], []], caches=(True,), feeder=True, data_edge='shift', no_get=True)
     add(1, 'none', 2, 2, [[], ['A', 'B', 'X']], caches=(True,))
